@@ -279,6 +279,8 @@ func runC05(c *Ctx) {
 		c05Replay(c)
 		return
 	}
+	// frames as the client sends them: several frames in one flush, the first larger than a megabyte
+	defer c02LargeBlocks(c, r.Fork(), "C05")
 
 	// --- 1. Writer.Compress vs model frame + single-frame round trip
 	lengths := []int{0, 1, 2, 3, 7, 8, 15, 16, 17, 63, 64, 65, 127, 128, 255, 256, 1000, 4095, 4096}
